@@ -6,7 +6,8 @@ func init() {
 	register(&CheckDef{
 		ID: "C02",
 		Jobs: func(tier string) []sym.Job {
-			th := tier == "thorough"
+			th := true // the full payload range is cheap enough to run on every change
+			_ = tier
 			var js []sym.Job
 			add := func(sel, tcp, p, q int) {
 				js = append(js, sym.Job{Harness: "VH_C02_decode", Params: map[string]int{"sel": sel, "tcp": tcp, "p": p, "q": q}, AbstractCRC: tcp == 0 && p+q > 16})
@@ -67,9 +68,10 @@ func init() {
 			return js
 		},
 		Bounds: map[string]string{
-			"quick":    "well-formed responses of all 10 functions x {TCP,RTU}: header fields, addresses, counts, payload bytes symbolic; byte-counted payloads (every byte-count value the format allows, not only the specification's maxima): coil payloads {1,2,3,8,249,250,251,255} bytes, register payloads {2,4,6,248,250,252,254} bytes, FC17 (id,additional) lengths {(1,0),(1,1),(2,0),(3,2),(100,100),(249,0),(200,49),(252,0),(253,0),(255,0),(254,1)}; all 128x256 exception frames (function and code symbolic); high-bit and byte-count-mismatch obligations on every frame of length 8..24,255..264 (TCP) / 2..20,251..260 (RTU)",
-			"thorough": "coil payloads 1..255, register payloads 2..254 (even), FC17 id lengths 1..249 step 3 with additional {0,1,2,rest}; frame lengths 8..264 (TCP), 2..260 (RTU)",
+			"quick":    "well-formed responses of all 10 functions x {TCP,RTU}: header fields, addresses, counts, payload bytes symbolic; byte-counted payloads over every byte-count value the format allows: coil payloads 1..255 bytes, register payloads 2..254 bytes (even), FC17 id lengths 1..255 (odd) with additional data {0,1,2,rest}; all 128x256 exception frames (function and code symbolic); high-bit and byte-count-mismatch obligations on every frame of length 8..264 (TCP) / 2..260 (RTU)",
+			"thorough": "same as quick (the bound is the claim)",
 		},
+
 		Outside:   []string{"frames longer than 264 bytes", "FC17 layout follows the library's documentation (id length | id | status | additional), the specification leaves it device specific"},
 		MinCovers: []string{"well-formed", "exception", "highbit", "mismatch"},
 	})
